@@ -85,6 +85,7 @@ func c19Doc(frames []string, where string) string {
 
 func c19Enumerate(tier string, emit func(*eng.Case)) {
 	crossEmit("C19", tier, "xframes", 1, emit)
+	emit = withDecor(decorEvery(tier), emit)
 	type fr struct{ sch, svc, hf, path, tag int }
 	src := func(f fr) string {
 		return c19Schemes[f.sch] + c19HostForms[f.hf].gen(c19Services[f.svc]) + c19Paths[f.path]
@@ -373,7 +374,7 @@ func init() {
 		Check:     c19Check,
 		Prepare:   func(tier string) { CrossCorpus(tier) },
 		Bounds: func(tier string) map[string]any {
-			return map[string]any{"schemes": 4, "services": 5, "host_forms": len(c19HostForms), "paths": len(c19Paths), "tags": 5}
+			return map[string]any{"decorated_variants": decorBound(tier), "schemes": 4, "services": 5, "host_forms": len(c19HostForms), "paths": len(c19Paths), "tags": 5}
 		},
 	})
 }
